@@ -12,7 +12,7 @@ R6  first-UIP analysis: structural facts (seen-set, level split, asserting liter
 """
 from ..expr import LocalEnv, canon, show
 from ..facts import AnalysisBroken, kids, short, src, walk
-from ..tables import enum_paths, switch_arms
+from ..tables import enum_paths, switch_arms, path_literals, value_of, eq_test
 from .. import cfg, effects
 
 SC = 'smt::sat_core::'
@@ -419,18 +419,55 @@ def r5(ctx, fs):
         ctx.finding(rid, f.id, 'reason', 'clause::get_reason must return the negation of every literal of the clause except the propagated one', loc=f.loc)
     f = fs.fn('smt::clause::simplify')
     env = LocalEnv(f)
-    sw = [n for n in f.nodes() if n.get('k') == 'SwitchStmt']
-    ok = False
-    if len(sw) == 1:
-        cells = {}
-        for labels, st in switch_arms(sw[0]):
-            for l in labels:
-                cells[l[2] if l[0] == 'case' else 'default'] = canon(st, env, subst=False)
-        keep = cells.get('Undefined')
-        ok = cells.get('True') == ('ReturnStmt', 'true') and 'False' not in cells and 'default' not in cells and isinstance(keep, tuple) and keep[0] == '=' and \
-            isinstance(keep[1], tuple) and keep[1][0] == '[]' and keep[1][1] == 'smt::clause::lits' and \
-            ((isinstance(keep[2], tuple) and keep[2][0] == '[]' and keep[2][1] == 'smt::clause::lits') or
-             keep[2] in [n['slots']['var'].get('name') for n in f.nodes() if n.get('k') == 'CXXForRangeStmt' and canon(n['slots']['range'], env, subst=False) == 'smt::clause::lits'])
+    # decided on the paths of the body of the loop over lits, whatever spells the three-way test on the value of the visited literal (switch, if chain, early
+    # continue): True -> return true; Undefined -> the literal is kept (one store into lits); False -> nothing
+    LITS = 'smt::clause::lits'
+    loops = [n for n in f.nodes() if n.get('k') in ('ForStmt', 'CXXForRangeStmt', 'WhileStmt') and not any(a.get('k') in ('ForStmt', 'CXXForRangeStmt', 'WhileStmt') for a in f.ancestors(n))]
+    ok = len(loops) == 1
+    cells = {}
+    if ok:
+        lp = loops[0]
+        if lp['k'] == 'CXXForRangeStmt':
+            elem = lp['slots']['var'].get('name')
+            ok = canon(lp['slots']['range'], env, subst=False) == LITS
+            is_elem = lambda t: t == elem
+        else:
+            is_elem = lambda t: isinstance(t, tuple) and len(t) == 3 and t[0] == '[]' and t[1] == LITS
+        cn = lambda n: canon(n, env, subst=False)
+
+        def is_val(t):
+            return isinstance(t, tuple) and t[0] == 'mcall' and t[1].endswith('::value') and is_elem(t[-1])
+
+        def is_keep(st):
+            t = cn(st)
+            return isinstance(t, tuple) and len(t) == 3 and t[0] == '=' and isinstance(t[1], tuple) and t[1][0] == '[]' and t[1][1] == LITS and is_elem(t[2])
+        for p in enum_paths(lp['slots']['body']):
+            L = path_literals(p.conds, cn)
+            if L is None:
+                continue
+            es = set()
+            for c in L:
+                ek = eq_test(c[1]) if c[0] == 'if' else None
+                if ek is None or not is_val(ek[0]):
+                    ok = False
+                else:
+                    es.add(ek[0])
+            if len(es) != 1:
+                ok = False
+                continue
+            v = value_of(L, next(iter(es)))
+            live = p.live(env)
+            if v == 'True':
+                good = p.end == 'return' and len(live) == 1 and cn(live[0]) == ('ReturnStmt', 'true')
+            elif v == 'Undefined':
+                good = p.end in ('fall', 'continue') and len(live) == 1 and is_keep(live[0])
+            elif v == 'False':
+                good = p.end in ('fall', 'continue') and not live
+            else:
+                good = False
+            cells[v] = cells.get(v, True) and good
+            ok = ok and good
+        ok = ok and cells.get('True') and cells.get('Undefined')
     rets = [canon(n['c'][0], env) for n in f.nodes() if n.get('k') == 'ReturnStmt']
     ctx.instance(rid, [f.id, 'simplify'], {'table_ok': ok, 'returns': [show(r) for r in rets]})
     if not ok or sorted(map(repr, rets)) != sorted(map(repr, ['true', 'false'])):
